@@ -39,7 +39,7 @@ K_SET = [1, 2, 3, 17, 256, 5000]
 def shards(tier, seed):
     out = []
     if tier == "quick":
-        n_main, n_per, n_cuda, budget = 8, 260, 100, 70
+        n_main, n_per, n_cuda, budget = 8, 260, 70, 70
     else:
         n_main, n_per, n_cuda, budget = 14, 4000, 1200, 540
     for i in range(n_main):
@@ -194,7 +194,7 @@ def run_case(c, rec, backends):
 
         # History: the caller refills the SAME buffers in place and calls again; the statistics
         # must be those of the current contents (no stale copy of an earlier record).
-        if be == "cuda" or (c["seed"][-1] % 3 == 0):
+        if (be == "cuda" and c["seed"][-1] % 2 == 0) or (be != "cuda" and c["seed"][-1] % 3 == 0):
             r2 = gen.rng_for(*c["seed"], "refill")
             xv[:] = gen.record(r2, N, "white") * (float(np.std(x)) or 1.0)
             if cross:
